@@ -721,7 +721,7 @@ func vC01Finalize(rig *vC01Rig, subs []vC01Submitted, nNodes int, res *vC01Resul
 			if m0 > 0 {
 				commitUpTo(m0 - 1)
 			}
-			evs = append(evs, fmt.Sprintf("OReady %d %d %s", e.Node, m0, o))
+			evs = append(evs, fmt.Sprintf("OReady %d %d %s %s", e.Node, m0, cqBool(e.PeerOk), o))
 		case "trk":
 			cs := make([]string, len(e.Calls))
 			for i, cl := range e.Calls {
